@@ -18,13 +18,15 @@ USAGE_A = {  # explicit lifetimes on every class
     "access_token": {"expires_in": 3600},
     "refresh_token": {"supports_minting": ["access_token", "refresh_token", "id_token"], "expires_in": 86400},
 }
-CLIENTS = ["client_1", "client_2", "client_3"]
+CLIENTS = ["client_1", "client_2", "client_3", "client_4"]
 USERS = ["diana", "bob"]
 ALLOWED = {
     "client_1": ["openid", "profile", "email", "address", "phone", "offline_access"],
     "client_2": ["openid", "email", "offline_access"],
     "client_3": None,     # no per-client list: the provider's default applies
+    "client_4": [],       # an explicitly empty list: nothing is allowed
 }
+LOGOUT = {"client_1": "backchannel_logout_uri", "client_2": "frontchannel_logout_uri", "client_3": None, "client_4": None}
 DEFAULT_ALLOWED = ["openid", "profile", "email", "address", "phone", "offline_access"]
 SCOPES = ["openid", "profile", "email", "address", "phone", "offline_access", "foo", "openid"]
 
@@ -34,6 +36,8 @@ def make_server(oidc=True, jwt=False, user="diana", usage=None, keys=None, more_
     rules = copy.deepcopy(USAGE_A)
     if usage == "no_code_expiry":
         del rules["authorization_code"]["expires_in"]
+    if usage == "exchange":
+        rules["access_token"]["supports_minting"] = ["access_token", "refresh_token"]
     extra = {"authz": {"class": AuthzHandling, "kwargs": {"grant_config": {"usage_rules": rules, "expires_in": 43200}}}}
     s = opbase.make_op(jwt_tokens=jwt, extra=extra, user=user, keys=keys, more_endpoints=more_endpoints)
     if not oidc:
@@ -52,8 +56,10 @@ def make_server(oidc=True, jwt=False, user="diana", usage=None, keys=None, more_
             "token_endpoint_auth_method": "client_secret_post",
             "response_types_supported": ["code", "code id_token", "id_token", "token", "code token", "id_token token", "code id_token token"],
         }
-        if ALLOWED[cid]:
-            ctx.cdb[cid]["allowed_scopes"] = ALLOWED[cid]
+        if ALLOWED[cid] is not None:
+            ctx.cdb[cid]["allowed_scopes"] = list(ALLOWED[cid])
+        if LOGOUT[cid]:
+            ctx.cdb[cid][LOGOUT[cid]] = f"https://{cid}.example.com/logout"
         ctx.keyjar.add_symmetric(cid, ctx.cdb[cid]["client_secret"])
     return s
 
@@ -250,12 +256,22 @@ class Runner:
         self._scan()
         return ["code", self.h[ra["code"]]]
 
-    def op_tokenParse(self, client, code, redirect):
+    def _cred(self, client, claim):
+        """(body parameters, http_info) authenticating as `client`. Without `claim`: client_secret_post. With `claim`: the credential travels in
+        the Authorization header (client_secret_basic) and the body's client_id names `claim` — whoever that is, the request is `client`'s"""
+        if claim is None:
+            return dict(client_id=client, client_secret=self.secret(client)), None
+        import base64
+        hdr = "Basic " + base64.b64encode(f"{client}:{self.secret(client)}".encode()).decode()
+        return dict(client_id=claim), {"headers": {"authorization": hdr}}
+
+    def op_tokenParse(self, client, code, redirect, claim=None):
         ep = self.s.get_endpoint("token")
-        req = dict(client_id=client, client_secret=self.secret(client), grant_type="authorization_code", code=self.tv(code))
+        body, hi = self._cred(client, claim)
+        req = dict(body, grant_type="authorization_code", code=self.tv(code))
         if redirect is not None:
             req["redirect_uri"] = redirect
-        pr = ep.parse_request(req)
+        pr = ep.parse_request(req, http_info=hi)
         if "error" in pr:
             return ["err", pr["error"]]
         self.pending.append(pr)
@@ -279,15 +295,39 @@ class Runner:
             sc = sc.split(" ")
         return ["tokens"] + [self.h.get(ra.get(x), -1) if ra.get(x) else -1 for x in ("access_token", "refresh_token", "id_token")] + [sorted(sc or [])]
 
-    def op_refresh(self, client, rt, scope):
+    def op_refresh(self, client, rt, scope, claim=None):
         ep = self.s.get_endpoint("token")
-        req = dict(client_id=client, client_secret=self.secret(client), grant_type="refresh_token", refresh_token=self.tv(rt))
+        body, hi = self._cred(client, claim)
+        req = dict(body, grant_type="refresh_token", refresh_token=self.tv(rt))
+        if scope is not None:
+            req["scope"] = list(scope)
+        pr = ep.parse_request(req, http_info=hi)
+        if "error" in pr:
+            return ["err", pr["error"]]
+        return self._tokens(ep.process_request(pr))
+
+    def op_exchange(self, client, subj, styp, rtyp, scope):
+        """RFC 8693 at the token endpoint. styp / rtyp: "access" | "refresh" (rtyp None = not stated)"""
+        ep = self.s.get_endpoint("token")
+        U = "urn:ietf:params:oauth:token-type:%s_token"
+        req = dict(client_id=client, client_secret=self.secret(client), grant_type="urn:ietf:params:oauth:grant-type:token-exchange",
+                   subject_token=self.tv(subj), subject_token_type=U % styp)
+        if rtyp is not None:
+            req["requested_token_type"] = U % rtyp
         if scope is not None:
             req["scope"] = list(scope)
         pr = ep.parse_request(req)
         if "error" in pr:
             return ["err", pr["error"]]
-        return self._tokens(ep.process_request(pr))
+        out = ep.process_request(pr)
+        if "error" in out and "response_args" not in out:
+            return ["err", out["error"]]
+        ra = out["response_args"]
+        self._scan()
+        sc = ra.get("scope")
+        if isinstance(sc, str):
+            sc = sc.split(" ")
+        return ["exchanged", self.h.get(ra.get("access_token"), -1), sorted(sc or [])]
 
     def op_userinfo(self, tok):
         ep = self.s.get_endpoint("userinfo")
@@ -299,9 +339,10 @@ class Runner:
             return ["err", out["error"]]
         return ["userinfo", out["response_args"].get("sub") is not None]
 
-    def op_introspect(self, client, tok):
+    def op_introspect(self, client, tok, claim=None):
         ep = self.s.get_endpoint("introspection")
-        pr = ep.parse_request({"token": self.tv(tok), "client_id": client, "client_secret": self.secret(client)})
+        body, hi = self._cred(client, claim)
+        pr = ep.parse_request(dict(body, token=self.tv(tok)), http_info=hi)
         if "error" in pr:
             return ["err", pr["error"]]
         out = ep.process_request(pr)
@@ -311,9 +352,10 @@ class Runner:
             sc = " ".join(sc)
         return ["introspect", bool(ra["active"]), sorted(sc.split(" ")) if sc else []]
 
-    def op_revokeEp(self, client, tok):
+    def op_revokeEp(self, client, tok, claim=None):
         ep = self.s.get_endpoint("token_revocation")
-        pr = ep.parse_request({"token": self.tv(tok), "client_id": client, "client_secret": self.secret(client)})
+        body, hi = self._cred(client, claim)
+        pr = ep.parse_request(dict(body, token=self.tv(tok)), http_info=hi)
         if "error" in pr:
             return ["err", pr["error"]]
         out = ep.process_request(pr)
@@ -348,8 +390,13 @@ class Runner:
         raise KeyError("no session")
 
     def op_revokeClient(self, user, client):
-        # logout from one client: Session.clean_sessions -> revoke_client_session
-        self.s.get_endpoint("session").clean_sessions([self._sid_of_grant(self._any_grant(user, client))])
+        # logout from one client: Session.logout_from_client -> clean_sessions -> revoke_client_session
+        self.s.get_endpoint("session").logout_from_client(self._sid_of_grant(self._any_grant(user, client)))
+        return ["ok"]
+
+    def op_logoutAll(self, user):
+        # logout from every client: Session.logout_all_clients, entered with the session id of one of the user's grants
+        self.s.get_endpoint("session").logout_all_clients(self._sid_of_grant(self._any_grant(user)))
         return ["ok"]
 
     def op_revokeUser(self, user):
@@ -377,6 +424,8 @@ def model_line(o):
         return f"prov\ttokenProcess\t{o[1]}"
     if k == "refresh":
         return f"prov\trefresh\t{enc_str(o[1])}\t{o[2]}\t{opt(o[3])}"
+    if k == "exchange":
+        return f"prov\texchange\t{enc_str(o[1])}\t{o[2]}\t{o[3]}\t{o[4] or 'none'}\t{opt(o[5])}"
     if k == "userinfo":
         return f"prov\tuserinfo\t{o[1]}"
     if k in ("introspect", "revokeEp"):
@@ -387,17 +436,17 @@ def model_line(o):
         return f"prov\t{k}\t{o[1]}"
     if k == "revokeClient":
         return f"prov\trevokeClient\t{enc_str(o[1])}\t{enc_str(o[2])}"
-    if k == "revokeUser":
-        return f"prov\trevokeUser\t{enc_str(o[1])}"
+    if k in ("revokeUser", "logoutAll"):
+        return f"prov\t{k}\t{enc_str(o[1])}"
     raise ValueError(k)
 
 
-def cfg_line(oidc, jwt=False):
+def cfg_line(oidc, jwt=False, usage=None):
     # prov reset <oidc> <allowed: client;scopes...>  (rules are fixed to USAGE_A in the driver, generated table checked separately)
     al = []
     for c in CLIENTS:
         al.append(c + "=" + " ".join(ALLOWED[c] if ALLOWED[c] is not None else DEFAULT_ALLOWED))
-    return "prov\treset\t" + ("1" if oidc else "0") + "\t" + ("1" if jwt else "0") + "\t" + enc_list(al)
+    return "prov\treset\t" + ("1" if oidc else "0") + "\t" + ("1" if jwt else "0") + "\t" + enc_list(al) + ("\tx" if usage == "exchange" else "")
 
 
 def parse_model(out):
@@ -411,6 +460,8 @@ def parse_model(out):
         outcome = ["code", int(oc[1])]
     elif oc[0] == "tokens":
         outcome = ["tokens", int(oc[1]), int(oc[2]), int(oc[3]), sorted(dec_list(oc[4] if len(oc) > 4 else ""))]
+    elif oc[0] == "exchanged":
+        outcome = ["exchanged", int(oc[1]), sorted(dec_list(oc[2] if len(oc) > 2 else ""))]
     elif oc[0] == "userinfo":
         outcome = ["userinfo", True]
     elif oc[0] == "introspect":
@@ -434,8 +485,8 @@ def canon_outcome(r):
     return r
 
 
-def run_history(ops, oidc=True, jwt=False):
-    R = Runner(oidc, jwt)
+def run_history(ops, oidc=True, jwt=False, usage=None):
+    R = Runner(oidc, jwt, usage=usage)
     steps = []
     for o in ops:
         r = R.op(o)
@@ -536,12 +587,14 @@ def gen_history(rng, nops, focus="mixed"):
     return ops
 
 
-def gen_adaptive(rng, nops, oidc=True, jwt=False, weights=None, runner=None, on_step=None):
+def gen_adaptive(rng, nops, oidc=True, jwt=False, weights=None, runner=None, on_step=None, usage=None):
     """generate a history against the live provider so that handles are real; returns (ops, steps)"""
-    R = runner if runner is not None else Runner(oidc, jwt)
+    R = runner if runner is not None else Runner(oidc, jwt, usage=usage)
     ops, steps = [], []
     W = dict(authorize=20, redeem=16, parse=4, process=4, refresh=12, userinfo=9, introspect=8, revokeEp=5, revokeTok=5,
-             revokeGrant=4, revokeClient=3, revokeUser=1.5, remove=2, tick=5)
+             revokeGrant=4, revokeClient=3, revokeUser=1.5, logoutAll=2, remove=2, tick=5)
+    if R.usage == "exchange":
+        W["exchange"] = 16
     if weights:
         W.update(weights)
     kinds, ws = list(W), list(W.values())
@@ -583,7 +636,12 @@ def gen_adaptive(rng, nops, oidc=True, jwt=False, weights=None, runner=None, on_
             red = f"https://{owner}.example.com/cb"
             if rng.random() < 0.1:
                 red = rng.choice([None, red + "x", "https://evil.example/cb"])
-            r = do(["tokenParse", c, code, red])
+            o = ["tokenParse", c, code, red]
+            if c != owner and rng.random() < 0.6:
+                o.append(owner)            # authenticated (header) as c, the body names the code's owner
+            elif rng.random() < 0.06:
+                o.append(rng.choice(CLIENTS))
+            r = do(o)
             if k == "redeem" and r[0] == "parsed":
                 do(["tokenProcess", len(R.pending) - 1])
         elif k == "process" and R.pending:
@@ -592,7 +650,16 @@ def gen_adaptive(rng, nops, oidc=True, jwt=False, weights=None, runner=None, on_
             rt = rng.choice(ref)
             c = tokclient[rt] if rng.random() < 0.9 else rng.choice(CLIENTS)
             sc = None if rng.random() < 0.5 else rng.sample(SCOPES, rng.randint(1, 3))
-            do(["refresh", c, rt, sc])
+            do(["refresh", c, rt, sc] + ([tokclient[rt]] if c != tokclient[rt] and rng.random() < 0.6 else []))
+        elif k == "exchange" and anytok:
+            r0 = rng.random()
+            subj = rng.choice(acc + ref) if (acc + ref) and r0 < 0.9 else rng.choice(anytok)
+            true_typ = "access" if subj in acc else "refresh"
+            styp = true_typ if rng.random() < 0.9 else rng.choice(["access", "refresh"])
+            rtyp = rng.choice([None, "access", "access", "refresh"])
+            c = tokclient[subj] if rng.random() < 0.55 else rng.choice(CLIENTS)
+            sc = None if rng.random() < 0.4 else rng.sample(SCOPES, rng.randint(1, 4))
+            do(["exchange", c, subj, styp, rtyp, sc])
         elif k == "userinfo" and anytok:
             do(["userinfo", rng.choice(acc) if acc and rng.random() < 0.8 else rng.choice(anytok)])
         elif k == "introspect" and anytok:
@@ -600,7 +667,8 @@ def gen_adaptive(rng, nops, oidc=True, jwt=False, weights=None, runner=None, on_
             do(["introspect", tokclient[t], t])
         elif k == "revokeEp" and anytok:
             t = rng.choice(anytok)
-            do(["revokeEp", tokclient[t] if rng.random() < 0.85 else rng.choice(CLIENTS), t])
+            c = tokclient[t] if rng.random() < 0.85 else rng.choice(CLIENTS)
+            do(["revokeEp", c, t] + ([tokclient[t]] if c != tokclient[t] and rng.random() < 0.6 else []))
         elif k == "revokeTok" and anytok:
             do(["revokeTok", rng.choice(anytok), rng.random() < 0.6])
         elif k == "revokeGrant":
@@ -610,6 +678,8 @@ def gen_adaptive(rng, nops, oidc=True, jwt=False, weights=None, runner=None, on_
             do(["revokeClient", path[0], path[1]])
         elif k == "revokeUser":
             do(["revokeUser", rng.choice(USERS)])
+        elif k == "logoutAll":
+            do(["logoutAll", rng.choice(USERS)])
         elif k == "remove":
             do(["remove", rng.choice(grants)])
         elif k == "tick":
